@@ -192,6 +192,10 @@ class RDMol2StereoMolGraph:
                 perm = atom.GetUnsignedProp("_chiralPermutation")
                 tbp_order = self._tbp_atom_order_permutation_dict[perm]
                 neigh_atoms = tuple([neighbors[i] for i in tbp_order])
+                # the table orders the neighbors like @TB1 (axial atoms
+                # first and last), TrigonalBipyramidal lists both axial
+                # atoms first
+                neigh_atoms = tuple([neigh_atoms[i] for i in (0, 4, 1, 2, 3)])
                 tbp_atoms = (id_atom_map[atom_idx], *neigh_atoms)
                 assert len(tbp_atoms) == 6
                 atom_stereo = TrigonalBipyramidal(tbp_atoms, 1)
